@@ -102,6 +102,7 @@ class Kernel:
         self.delay_fn = delay_fn or (lambda task, site: 0.0)
         self.fault_fn = None            # fault_fn(task, site) -> None | ("exc", e) | ("kill",) | ("stall", secs)
         self.line_fn = None             # line_fn(task, frame) -> None | "yield" | ("exc", e)
+        self.block_fault_fn = None      # block_fault_fn(task, label) -> True: the task's process dies while blocked
         self.trace_files = ()           # filenames whose frames get line events
         self.trace_skip_names = ("box", "sigmaclip")
         self.max_steps = max_steps
@@ -237,6 +238,19 @@ class Kernel:
         self._seq += 1
         t.seq = self._seq
         self._log("b", t, t.blocked_on)
+        if self.block_fault_fn is not None and self.block_fault_fn(t, t.blocked_on):
+            # the process dies while it sleeps on the primitive (it stays in the wait set as a dead entry, which
+            # every simulated primitive skips)
+            self._log("fault", t, "kill while blocked @%s" % t.blocked_on)
+            t.dead = True
+            t.state = DONE
+            for cb in list(t.on_done):
+                cb(t)
+            t.on_done = []
+            self.current = None
+            self._back.release()
+            t._go.acquire()
+            raise SimKilled()
         self._switch_out(t)
         t.blocked_on = None
         return t.timed_out
